@@ -162,7 +162,9 @@ func (rc *RunCtx) cancelFamily(u *ExecUniverse) {
 		}
 	}
 	rc.cov("spec_drift", drift)
-	sort.Slice(rejs, func(i, j int) bool { return rejs[i].id < rejs[j].id || (rejs[i].id == rejs[j].id && rejs[i].cl < rejs[j].cl) })
+	sort.Slice(rejs, func(i, j int) bool {
+		return rejs[i].id < rejs[j].id || (rejs[i].id == rejs[j].id && rejs[i].cl < rejs[j].cl)
+	})
 	if len(rejs) > maxConfirm {
 		rc.Notes = append(rc.Notes, fmt.Sprintf("%d further rejections were not re-executed", len(rejs)-maxConfirm))
 		rejs = rejs[:maxConfirm]
